@@ -73,6 +73,20 @@ Rng(q)      == {q[i] : i \in DOMAIN q}
 (* s = property name                                                       *)
 Call(op, a, b, f, l, s) == [op |-> op, a |-> a, b |-> b, f |-> f, l |-> l, s |-> s]
 
+(* API flavour of a creation / lookup call (4th list entry; 2nd of clear_props): 0 the generic   *)
+(* templates, 1 the per-kind convenience wrapper of ResourceManager.hh, 2 / 3 further variants   *)
+(* (PropertyPtr constructor, const-mesh overloads; see harness/props_exec.cc).  The model and    *)
+(* the relations do not look at it: a wrapper must behave exactly like the generic call of its   *)
+(* kind and mode.                                                                                *)
+Flavour(c) == IF c.op = "clear_props" THEN (IF Len(c.l) >= 2 THEN c.l[2] ELSE 0)
+              ELSE IF Len(c.l) >= 4 THEN c.l[4] ELSE 0
+ValidFlavours(op, k) ==
+  CASE op = "request"                               -> {0, 1, 2}
+    [] op \in {"create_shared", "create_persistent"} -> IF k = "M" THEN {0} ELSE {0, 1}
+    [] op = "create_private"                        -> IF k = "M" THEN {0, 2} ELSE {0, 1, 2}
+    [] op = "get_property"                          -> IF k = "M" THEN {0, 3} ELSE {0, 1, 2, 3}
+    [] op = "property_exists"                       -> IF k = "M" THEN {0} ELSE {0, 1}
+    [] op = "clear_props"                           -> {0, 1}
 CreateOps == {"request", "create_shared", "create_persistent", "create_private", "get_property"}
 KernelOps == {"add_vertex", "add_edge", "add_face_v", "add_cell", "delete_vertex", "delete_edge", "delete_face",
               "delete_cell", "collect_garbage", "enable_deferred", "enable_fast", "enable_vbu", "enable_ebu", "enable_fbu"}
